@@ -82,8 +82,9 @@ func ReplayCLI(i int, raw []byte) child.Result {
 			if len(rec) < 2 {
 				continue
 			}
+			// the label of a row starts with the kind of change (the rest of the wording is not relied upon)
 			for k := range got {
-				if strings.HasPrefix(rec[0], k+" IN ") {
+				if strings.HasPrefix(strings.ToUpper(strings.TrimSpace(rec[0])), k) {
 					got[k] = append(got[k], rec[1])
 				}
 			}
